@@ -14,14 +14,7 @@ def check_text(case, stats):
         return
     ref = ref_parse(text, dflt)
     b = RecordingAstBuilder()
-    if len(text) % 3 == 0:
-        # an existing, used parser is given the recording builder afterwards (ast_builder is a public attribute)
-        parser = gh.Parser(gh.AstBuilder(gh.IdGenerator()))
-        gh.parse("Feature: earlier\n Scenario: s\n  Given x\n", parser=parser)
-        parser.ast_builder = b
-        real = gh.parse(text, dflt, parser=parser)
-    else:
-        real = gh.parse(text, dflt, builder=b)
+    real = gh.parse(text, dflt, builder=b)
     stats.case(text, len(set(ref.states)) >= 4, sample={"text": text}, labels=["accepted" if ref.accepted else "rejected", case.get("label", "-")])
     if (real[0] == "ok") != ref.accepted:
         raise Violation(case, "document is %s of the grammar but the parser %s it\n%s" % (
